@@ -262,3 +262,7 @@ impl TransportProbe {
 
 #[path = "outstation_probe.rs"]
 pub mod outstation_probe;
+
+// C10: database -> handler conversion probe
+#[path = "convert_probe.rs"]
+pub mod convert_probe;
